@@ -307,6 +307,10 @@ class Check:
         for key, (k, n) in sorted(self.known_hits.items()):
             print("KNOWN-FINDING: property=%s %s (%d occurrence(s) this run)" % (self.pid, k["what"], n))
         out_lines = []
+        if any(not v[3] for v in self.viol):
+            # a concrete failing input was found: the broken ties that led to it are recorded, not reported separately
+            self.notes += ["broken tie (subsumed by a failing input): %s: %s" % (v[0], v[1][:300]) for v in self.viol if v[3]]
+            self.viol = [v for v in self.viol if not v[3]]
         for key, what, replay, no_input in self.viol:
             os.makedirs(rd, exist_ok=True)
             h = hashlib.sha1(key.encode()).hexdigest()[:12]
